@@ -674,6 +674,7 @@ fn qtables() -> Value {
                 "wild_except": d.supports_select_wildcard_except(),
                 "group_by_expr": d.supports_group_by_expr(),
             },
+            "named_arg_eq": d.supports_named_fn_args_with_eq_operator(),
             "probes": {
                 "limit_comma": probe_query(d, "SELECT x1 LIMIT 1, 2"),
                 "limit_by": probe_query(d, "SELECT x1 LIMIT 1 BY x2"),
